@@ -3,6 +3,7 @@ import Driver.Prim
 import Driver.Fn
 import Driver.Stream
 import Driver.Conn
+import Driver.Mpart
 
 namespace Driver
 
@@ -32,6 +33,7 @@ def step (s : St) (line : String) : St × String :=
   | "num" :: rest => (s, numOp rest)
   | "fn" :: rest => (s, fnOp rest)
   | "urlenc" :: rest => (s, urlencOp rest)
+  | "mpart" :: rest => (s, mpartOp rest)
   | w :: rest =>
     match connId w with
     | some k => let (o, out) := connOp (s.getConn k) rest; (s.setConn k o, out)
